@@ -11,24 +11,102 @@ TB = ("Trusted: Lean 4.33 kernel (leanchecker re-check in the thorough tier); ax
       "Python, in-process on the working tree of $VERIF_REPO) whose generators, canonicalisation and oracles are "
       "trusted; CPython 3.12. ")
 
+BT = ("Modelled, not verified: generator laziness (a visitor/handler mutating the tree between yields), raising user "
+      "callbacks, float clock (integer fake clock installed by the harness), threads of setup(timeout). ")
+BBN = ("Modelled, not verified: Python object aliasing of stored values (fresh objects only), key names that shadow Client "
+       "attributes, set iteration order (unobservable unless batch unregistration raises; such scenarios use single "
+       "unregister_key calls), use of a client after unregister(). ")
+P = "Lean 4 proof over the executable model + differential correspondence of the model with the working tree + Python oracle"
+
 CLAIMED = {
-    "C01": ("theorems over all trees x all histories of the interpreter model (lifecycle automaton accepted by every leaf "
-            "log in every reachable state; clause lemmas; contiguity; single terminate(INVALID) on interruption) + "
-            "correspondence of leaf callbacks and statuses on seeded random trees/schedules + Python oracle",
-            "Lean 4 proof (induction on tick fuel + structural induction) + model/implementation correspondence",
-            "Modelled, not verified: generator laziness (visitors mutating the tree mid-tick), raising callbacks, "
-            "float clock. Probe/stock leaves observed through instance-level wrappers."),
-    "C02": ("theorems: Closed invariant (a non-RUNNING node has no RUNNING descendant) for every reachable state; "
-            "stop(INVALID) makes every node INVALID and appends exactly one terminate(INVALID) to every non-INVALID "
-            "leaf; + correspondence of all statuses and INVALID notifications + oracle",
-            "Lean 4 proof (state invariant by induction) + correspondence",
-            "As C01. Histories whose Parallel policy is invalid raise and end (covered by C05)."),
+    "C01": ("theorems over all trees x all histories (ticks with arbitrary outcomes/guards/clock, root interrupts, blackboard "
+            "pokes, any length): every leaf log in every reachable state is accepted by the lifecycle automaton and is "
+            "RUNNING exactly when inside a round (C01_protocol); clause lemmas on the automaton; contiguity of one leaf "
+            "tick; exactly one terminate(INVALID) on interruption", P, BT),
+    "C02": ("theorems: in every reachable state a non-RUNNING node has no RUNNING descendant / every RUNNING node has a "
+            "RUNNING parent; stop(INVALID) leaves the whole subtree INVALID and appends exactly one terminate(INVALID) to "
+            "every non-INVALID leaf, for the root and for every subtree of every reachable state", P,
+            BT + "Histories whose Parallel policy is invalid raise and end (C05 covers the rejection)."),
+    "C03": ("theorems about tickF on an arbitrary sequence node (any children, any child tick): empty sequence, loop halts at "
+            "first non-SUCCESS / completes, contiguous order, entry reset to INVALID, memory resume, full tick shape with "
+            "status, children and trace, success-iff, tail interrupted without memory, memory-skipped prefix untouched; "
+            "liftable to every reachable state by run_good", P, BT),
+    "C04": ("theorems: empty selector, loop selects first RUNNING/SUCCESS, order, entry cases, tick shape, failure-iff, "
+            "one-running for every selector of every reachable state (full strength), interrupt-on-change PARTIAL (K1: "
+            "fresh re-entry selecting the first child) with machine-checked counterexample C04_stale_counterexample", P,
+            BT + "Known finding K1 (stale SUCCESS/FAILURE, never RUNNING, below the first child on fresh re-entry)."),
+    "C05": ("theorems: policy validation at tick and setup, sweep relation (every child once in order, synchronised "
+            "SUCCESSes skipped untouched), result table for the three policies, tick shape, clean-up on completion, entry "
+            "reset, completed parallels have no RUNNING node in every reachable state; result PARTIAL for the empty "
+            "parallel (K2) with counterexample", P, BT + "Known finding K2 (empty SuccessOnOne parallel succeeds)."),
+    "C06": ("theorems: dictionary laws of the storage association list; per-operation refinement (setattr / getattr / get "
+            "incl. nested paths / exists / set with overwrite on-off, plain and nested to any depth / unset / statics) of "
+            "the storage to put/del/get on the resolved location; read-your-writes across two clients naming one location "
+            "differently", P, BBN + "Known finding K5 shows through clear-on-unregister (value of a still used location)."),
+    "C07": ("theorems for every client and state: a denied attribute write/read, get, exists, set (any nesting, any "
+            "overwrite flag) returns AttributeError and leaves storage/metadata/clients/registry unchanged; reads never "
+            "change the store; storage changes only with write access; unset through an unregistered key raises and "
+            "changes nothing; unset clause PARTIAL (K6) with machine-checked counterexample", P,
+            BBN + "Known finding K6: unset needs no write access (a pinned test relies on it, so it is not repaired)."),
+    "C08": ("theorems: a rejected/invalid registration returns the state unchanged (full frame); WRITE/EXCLUSIVE "
+            "registrations conflicting with the metadata are rejected whatever name/remap spells the location; lock "
+            "invariant through the Mirror invariant of C14 under the explicit K4/K5-excluding hypotheses; release on "
+            "unregister", P, BBN + "Known findings K4 (remap change) and K5 (self alias) excluded by hypothesis, with "
+            "counterexamples in C14."),
+    "C09": ("theorems: every child-ticking decorator ticks its child exactly once before deciding (tick shape with trace), "
+            "the documented status table for all stateless decorators / Count / StatusToBlackboard, publication on the "
+            "blackboard incl. nested names, Count counters per tick and on interrupt, no RUNNING node below a decorator "
+            "that finished", P, BT),
+    "C10": ("theorems: Retry/Repeat update, reset on entry and round lemmas (j-th failure/success), Repeat -1 never "
+            "succeeds, Condition, Timeout init/update/cancel through the tick, EternalGuard false/true with exact trace, "
+            "OneShot latched tick, latch set exactly by a covered completion, never cleared, unaffected by interruption, "
+            "kept over every history", P, BT + "Time is an integer; float rounding of monotonic()+duration is outside the model."),
+    "C11": ("theorems over a pointer heap: which calls are rejected, rejected calls leave the heap unchanged, the "
+            "consistency invariant (child lists / parent links agree, no duplicates, one parent, remembered child is a "
+            "child) is preserved by add / insert / remove / replace / remove-all / decorator construction, removed "
+            "children are orphans, a removed RUNNING behaviour is INVALID", P,
+            "Children are made RUNNING / current by assignment instead of ticking in this family (same edit paths). "
+            "Acyclicity is not part of the invariant (the generator never builds cycles)."),
+    "C12": ("theorems: phase order of the call log and count+1 (C12_order), traversal contract on the tick trace (first "
+            "event enter, last event the root's yield, entered = yielded as multisets), snapshot record = id->status map of "
+            "the yields, changed <-> record differs from the previous one, iterate lists every node once children first, "
+            "setup keeps structure and rejects invalid policies", P,
+            BT + "setup with a finite timeout (threads, signals) is not modelled; blackboard client ids of the snapshot "
+            "visitor are compared only through the key sets."),
+    "C13": ("theorems: root refused, unknown id -> False, decorator child refused, insert under non-composite TypeError, "
+            "effect of remove at the parent (forgets the remembered child, interrupts a RUNNING child), structure after "
+            "prune/insert, edits preserve the state invariant, and an edited tree never raises an internal error nor "
+            "runs out of fuel (C13_tickable via tick_no_internal)", P, BT),
+    "C14": ("theorems: Mirror invariant (metadata sets = live registrations) preserved by register / unregister_key under "
+            "the K4/K5-excluding hypotheses, last-user rule for keys and values, registry, client and literal-regex "
+            "filters, required-key verification, counterexamples for K4 and K5", P,
+            BBN + "Regex filter proved for literal patterns (Python's re is trusted). Known findings K4, K5."),
+    "C15": ("theorems over all List Char: absolute_name idempotent, identity on absolute keys, placement inside the "
+            "namespace with or without trailing separator, relative_name inverse / KeyError outside, same-location iff "
+            "same normalised namespace and key, client namespace normalisation, namespace closure = proper prefixes; + "
+            "EXHAUSTIVE correspondence over {/,a,b} namespaces <= 4 x keys <= 5", P, "Strings are List Char; CPython str "
+            "methods (startswith/endswith/strip/rsplit) are trusted to be what the model says, checked exhaustively on "
+            "short strings."),
+    "C16": ("theorems: push bounded and most-recent, nothing recorded while disabled, the bound holds in every reachable "
+            "state (C16_bounded over all operation histories), exactly one record with the documented type per store "
+            "access for every outcome of setattr/getattr/unset/set", P, BBN + "Objects inside records are compared opaquely."),
+    "C17": ("theorems on every stock leaf update for every blackboard content (exists/wait, value/wait-value with the "
+            "operator table, multi-value check with evalChecks/publish, set/unset, BlackboardToStatus round trip) and round "
+            "lemmas for TickCounter, StatusQueue (replay / eventually / cycle), SuccessEveryN (n | k), Timer; initialise "
+            "runs exactly when the leaf was not RUNNING", P, BT + "Integer clock."),
+    "C18": ("theorems: XOR fold = parity (two options exact, even number fails, three-true counterexample K3), either_or / "
+            "pick-up / oneshot shapes, flag publication and guards, memory keeps the choice, one-shot latch over every "
+            "history; the all-histories general-n promises are carried by the correspondence (library-built idiom vs "
+            "model-built idiom, shapes compared) and the Python oracle: PARTIAL", P,
+            BT + "Known finding K3 (either_or with an odd number >= 3 of true conditions)."),
     "C19": ("theorems: for every node of every reachable state tip = None iff status INVALID, otherwise the tip is a "
-            "non-INVALID node of that subtree (CurOK + InvDown invariants); + correspondence of tip() of every node "
-            "after every op + oracle incl. the last-childless-ticked clause on sequence/selector trees",
-            "Lean 4 proof (state invariant) + correspondence",
-            "As C01. The 'last childless behaviour ticked' clause is carried by the oracle/correspondence only "
-            "(partial): no theorem yet."),
+            "non-INVALID node of that subtree; the 'last childless behaviour ticked' clause is checked by oracle and "
+            "correspondence only (PARTIAL)", P, BT),
+    "C20": ("theorems: one text line per behaviour in pre-order with indentation 4*(indent+depth) and newlines replaced, "
+            "the *-suffix loop terminates with a fresh name, dot node names pairwise distinct for any names, #edges = "
+            "#nodes-1, #nodes = #displayed behaviours (hidden subtrees omitted whole); the read-only clause holds "
+            "trivially in a functional model and is carried by the correspondence only (before/after snapshots of every "
+            "renderer in every runtime state): PARTIAL", P, "pydot is used as a container only."),
 }
 
 PENDING = {}  # pid -> reason (filled below for everything not claimed)
